@@ -211,6 +211,24 @@ fn deepest_ref_failure<'a>(r: &mut Ref<'a>, v: &Val, parents: &[String], sel: &'
     rec.keys().next().cloned().into_iter().collect()
 }
 
+/// the highest-priority cause among the path features (keys name one cause, the case lists all)
+fn primary(pf: &[&'static str]) -> &'static str {
+    for t in [
+        "same-key-object-fields-with-variable-conditional-children",
+        "same-key-object-fields",
+        "same-key-aliased-and-unaliased-leaf-fields",
+        "same-key-leaf-fields",
+        "alias-named-__typename",
+        "skip-and-include-on-one-selection",
+        "through-named-fragment",
+    ] {
+        if pf.contains(&t) {
+            return t;
+        }
+    }
+    "plain"
+}
+
 // ---------------------------------------------------------------- member enumeration (C02)
 
 pub struct Enum<'w> {
@@ -348,7 +366,10 @@ fn path_features(doc: &ExecDoc, root: &SelSet, path: &[String]) -> Vec<&'static 
             }
         }
         if fields.len() > 1 {
-            if next.is_empty() {
+            let aliased = fields.iter().filter(|f| matches!(f, Sel::Field { alias: Some(_), .. })).count();
+            if next.is_empty() && aliased > 0 && aliased < fields.len() {
+                tags.insert("same-key-aliased-and-unaliased-leaf-fields");
+            } else if next.is_empty() {
                 tags.insert("same-key-leaf-fields");
             } else if next.iter().any(|x| conditional_children(x)) {
                 tags.insert("same-key-object-fields-with-variable-conditional-children");
@@ -493,11 +514,11 @@ fn check_doc(prop: &str, rep: &Reporter, sch: &Sch, doc: &ExecDoc, text: &str, c
                                 Ok(false) => {
                                     let path = loaded.world.explain(&r, &ty);
                                     let pf = path_features(doc, sel, &path);
-                                    let ftag = if pf.is_empty() { "plain".to_string() } else { pf.join("+") };
+                                    let ftag = primary(&pf);
                                     rep.report(Violation {
                                         key: format!("not_admitted[{ftag}]"),
                                         what: format!("a spec-conformant response of the {what} is not a member of {alias}"),
-                                        case: case(json!({"failing_path": path, "response": r.show(), "variables": sigma, "parent_object": parent, "type": loaded.world.canon(&ty, 6).map(|t| show_t(&t)).unwrap_or_default()})),
+                                        case: case(json!({"features_on_failing_path": pf, "failing_path": path, "response": r.show(), "variables": sigma, "parent_object": parent, "type": loaded.world.canon(&ty, 6).map(|t| show_t(&t)).unwrap_or_default()})),
                                     });
                                 }
                                 Err(e) => rep.report(Violation { key: "machinery.member_eval".into(), what: e, case: case(json!({"dts": loaded.dts})) }),
@@ -532,11 +553,11 @@ fn check_doc(prop: &str, rep: &Reporter, sch: &Sch, doc: &ExecDoc, text: &str, c
                 if !ok {
                     let path = deepest_ref_failure(&mut r, m, &parents, sel);
                     let pf = path_features(doc, sel, &path);
-                    let ftag = if pf.is_empty() { "plain".to_string() } else { pf.join("+") };
+                    let ftag = primary(&pf);
                     rep.report(Violation {
                         key: format!("admits_impossible[{ftag}]"),
                         what: format!("{alias} admits a value no execution of the {what} can return"),
-                        case: case(json!({"failing_path": path, "value": m.show(), "type": loaded.world.canon(&ty, 6).map(|t| show_t(&t)).unwrap_or_default()})),
+                        case: case(json!({"features_on_failing_path": pf, "failing_path": path, "value": m.show(), "type": loaded.world.canon(&ty, 6).map(|t| show_t(&t)).unwrap_or_default()})),
                     });
                     break;
                 }
